@@ -54,7 +54,7 @@ def orgKey (n : String) : String := trimSpace n
 
 /-- service_bucket.go `validBucketName` -/
 def validBucketName (name : String) (sys : Bool) : Bool :=
-  !((name.startsWith "_" && !sys) || name.toList.contains '"')
+  !((name.toList.head? == some '_' && !sys) || name.toList.contains '"')
 
 structure State where
   orgs : List (Nat × String) := []                      -- organizationsv1: id ↦ name
